@@ -110,6 +110,14 @@ def rechunker(
     _exhaust_generator(executor, saver, load_wrapper, data_loader, rechunk, _timeout)
     if not os.path.exists(dest_directory):  # type: ignore
         raise FileNotFoundError(f"{dest_directory} not found, did one of the savers die?")
+    # A failure of the saver thread does not necessarily reach this thread (parallel modes):
+    # only replace the source if the new data was written completely.
+    new_meta_data = backend.get_metadata(dest_directory)
+    if "exception" in new_meta_data or "writing_ended" not in new_meta_data:
+        raise RuntimeError(
+            f"Writing {dest_directory} failed, {source_directory} is left untouched: "
+            f"{new_meta_data.get('exception', 'writing did not end')}"
+        )
     load_time = sum(load_time_seconds)
     write_time = time.time() - write_time_start - load_time
 
